@@ -464,6 +464,21 @@ def phase_children(c, bindir, hx, child_cases):
             c.violation("wrapper-hang: %s does not terminate when its child (%s after %d answers) dies while the feeder is still writing" % (name, term, k), rep)
         elif rc == 0:
             c.violation("premature-eof-exit-0: %s exits 0 although its child ended (%s) after %d answers of a %d-byte input" % (name, term, k, len(big[name])), rep)
+    # the child cannot even be started (execvp fails: ENOENT, EACCES, a directory): never success, never a hang
+    with tr.Scratch(SCRATCH) as w:
+        noexec = os.path.join(w, "not-executable")
+        open(noexec, "w").write("#!/bin/sh\ncat\n")
+        os.chmod(noexec, 0o644)
+        for name, args, stdin in [(n, a, i) for (n, a, i) in WRAPPERS if not a or n != "cache"] + [("warc_parallel", ["-j", "2"], wp_in)]:
+            for prog in ("/nonexistent/program", noexec, w, ""):
+                rc, out, err = tr.run([os.path.join(bindir, name)] + args + [prog], stdin, timeout=20)
+                c.count(("exec-fails", name, prog), bucket="child/%s/exec-fails" % name)
+                rep = {"wrapper": name, "argv": [name] + args + [prog if prog in ("", "/nonexistent/program") else os.path.basename(prog)], "stdin_hex": hexs(stdin), "status": rc,
+                       "child": "cannot be executed"}
+                if rc == "timeout":
+                    c.violation("wrapper-hang: %s does not terminate when its child cannot be executed (%r)" % (name, prog), rep)
+                elif rc == 0:
+                    c.violation("child-failure-exit-0: %s exits 0 although its child %r could not be executed" % (name, prog), rep)
     # warc_parallel (not one of the three, same Launch/wait machinery): failures must not be success
     for term in ["exit:0", "exit:3", "sig:9", "sig:15"]:
         rc, out, err = tr.run([os.path.join(bindir, "warc_parallel"), "-j", "2", vchild, "-1", term, "drain"], wp_in, timeout=20)
